@@ -16,6 +16,13 @@ def main():
     mod = importlib.import_module("harness.drv." + drv)
     from harness.drv import common
     common.install_alarm()
+    if os.environ.get("VERIF_WARMUP") == "1":
+        # second order pass: the rest of the library has been used before the cases are asked (nothing is observed here)
+        from harness.drv import warmup
+        try:
+            common.guarded(warmup.run, 60)
+        except BaseException:
+            pass
     with open(cin) as f, open(cout, "w") as g:
         for line in f:
             line = line.strip()
